@@ -87,7 +87,22 @@ class Executor:
 
     def run(self, text, fresh=False, timeout=None):
         """Send one case, return list of observation lines.  A dead or hung executor yields a
-        final 'CRASH ...' / 'HANG' line; the next call respawns."""
+        final 'CRASH ...' / 'HANG' line; the next call respawns.  stdout of the child is block
+        buffered, so after a crash the case is run once more in a fresh child with VF_FLUSH=1
+        (line buffered) to learn which op died."""
+        obs = self._run(text, fresh, timeout)
+        if obs and obs[-1].startswith("CRASH") and "VF_FLUSH" not in self.env:
+            self.env["VF_FLUSH"] = "1"
+            try:
+                obs2 = self._run(text, True, timeout)
+            finally:
+                del self.env["VF_FLUSH"]
+                self.close()
+            if obs2 and (obs2[-1].startswith("CRASH") or obs2[-1] == "HANG"):
+                return obs2
+        return obs
+
+    def _run(self, text, fresh=False, timeout=None):
         if fresh or self.p is None or self.p.poll() is not None:
             self._spawn()
         timeout = timeout or CASE_TIMEOUT
@@ -214,7 +229,8 @@ def _worker(args):
     ctx = Ctx(paths)
     stats = Stats()
     sfn = _sample_fn(mod)
-    state = {"last_fail": None}
+    state = {"last_fail": None, "fail_hash": None, "post": 0}
+    shrink_budget = int(os.environ.get("VERIF_SHRINK_EVALS", "400" if tier == "quick" else "1500"))
 
     class Fail(Exception):
         pass
@@ -225,10 +241,18 @@ def _worker(args):
               verbosity=Verbosity.quiet, phases=[Phase.generate, Phase.shrink])
     @given(mod.strategy(tier))
     def prop(case):
+        if state["last_fail"] is not None:
+            # shrinking: bounded number of further evaluations; afterwards only the best known
+            # failing case is still executed (Hypothesis replays it at the end), every other
+            # candidate is treated as "not failing" so the shrinker stops quickly.
+            state["post"] += 1
+            if state["post"] > shrink_budget and case_hash(case) != state["fail_hash"]:
+                return
         res = mod.run_case(ctx, case)
         stats.add(case, res, sfn)
         if res.fail:
             state["last_fail"] = (case, res.fail)
+            state["fail_hash"] = case_hash(case)
             raise Fail(res.fail)
 
     out = {"widx": widx, "fail": None, "error": None}
